@@ -77,6 +77,11 @@ CORPUS = [
     [("orderBy", [(C("a"), False, None), (C("b"), False, None), (C("s"), False, None)]),
      ("withColumn", "c", ("coalesce", C("a"), L(9)))],
     [("distinct",), ("where", ("bin", "Gt", C("a"), L(0)))],
+    # witnesses of repaired defects (findings with status "fixed": 9853fb2): a WHERE / a select item next to an alias
+    # of the same name must come back from the optimizer unchanged
+    [("where", ("bin", "Gt", C("a"), L(0))), ("withColumn", "a", ("bin", "Mul", C("a"), L(-1)))],
+    [("toDF", ["d", "s", "a"])],
+    [("where", ("bin", "Lt", C("b"), L(3))), ("select", [(("bin", "Add", C("b"), L(10)), "b"), (C("b"), "c")])],
 ]
 
 
@@ -565,6 +570,8 @@ def _worker(args):
     from sqlglot import expressions as exp
     import sqlglot
     from checks import c01
+    import logging
+    logging.getLogger("sqlglot").setLevel(logging.ERROR)     # "Hints are not supported" for every hint program
     session = DuckDBSession()
     conn = session._conn
     try:
